@@ -143,7 +143,7 @@ def run(tier, seed, which="C13"):
             else:
                 out.append(e)
         kv.write_ndjson(tp, out)
-        res = kv.run_tlc("BiotypeTrace", "BiotypeTrace.cfg", bwd, trace=tp, cont=True, timeout=900, heap="3g")
+        res = kv.run_tlc("BiotypeTrace", "BiotypeTrace.cfg", bwd, trace=tp, timeout=900, heap="3g")
         return bi, tp, rc, err, res
 
     for bi, tp, rc, err, res in kv.pmap(do, range(len(batches)), workers=12):
